@@ -23,15 +23,21 @@ LEVEL_TEXT = ("Proof (P): standby_prefix, standby_rejects, transition_no_loss, c
 LEVEL_NOTE = ("Trusted: Coq kernel, Go harness + Python glue. Modelled, not verified: the commithook goroutine, controller waits and gRPC replication service "
               "(abstracted to CReplicateOk/Fail, CAck, CTransition), the pull/fetch machinery (C35), SQL engine. Roots and commits are opaque identifiers; "
               "that a newer root contains the earlier acknowledged writes is the commit-graph property C19/C35.")
-THEOREMS = ["converges_after_retries", "oracle_on_model_examples (executed)", "standby_prefix", "standby_rejects", "transition_no_loss", "caught_up_converges", "replica_heads_real", "push_on_write_present"]
+THEOREMS = ["replica_after_pull_current", "deleted_branch_gone_after_pull", "converges_after_retries", "oracle_on_model_examples (executed)", "standby_prefix", "standby_rejects", "transition_no_loss", "caught_up_converges", "replica_heads_real", "push_on_write_present"]
 RULE = ("sequences of 4-10 steps: commit on main or on one of two side branches (created on first use) with push-on-write, read-replica transaction starts "
-        "(pull), and remote outages (break / fix) during which commits and pulls happen; non-trivial = at least one commit followed later by a pull; distinct by step list")
+        "(pull), tag creation (tag named like a branch, or sorting between branch names), branch deletion on the primary (pushed to the remote), and remote outages (break / fix) during which commits and pulls happen; non-trivial = at least one commit followed later by a pull; distinct by step list")
 ASSUMPTIONS = ["remote outages are injected by replacing the file:// remote directory with a regular file (pushes and pulls fail) with @@dolt_skip_replication_errors=1; "
                "regression (fb3d2cc): when the first commit after the variable is set fails to reach the remote and the remote recovers, later commits must be pushed (the oracle demands it); "
                "the failed push is reported on the server's output/log ('error pushing: ...'), not as a SQL warning of the committing session — the oracle does not require a SQL warning",
-               "the replica is observed only when it starts a transaction (it cannot be read through SQL without pulling)"]
-REQUIRED_TAGS = ["cluster-transition", "cluster-transition-refused", "cluster-retry-scheduled", "cluster-standby-role-ignores-commit", "cluster-standby-skips-roots", "cluster-acked-commit",
-                 "reg-recovers-after-first-push-failed", "commit-push-failed", "pull-failed", "commit-main", "commit-branch", "pull", "pull-after-commit", "new-branch-replicated"]
+               "the replica is observed only when it starts a transaction (it cannot be read through SQL without pulling)",
+               "branch deletions are generated only while the remote is reachable (the model has no failed-delete step); tags are created at main's head and named like a branch "
+               "(b1, v2) or between branch names (b15); commits on a live branch whose name is also a tag name are made through the revision database `db/branch` because "
+               "dolt_checkout('<name>') resolves such a name to the tag (detached-head error)",
+               "cluster commit2: the push in flight is held at the hook's sqlCtxFactory call (after it captured the root to push and released its lock) until the second commit's "
+               "post-commit callback has run; the model's atomic CReplicateOk linearises the in-flight attempt where it captured its root"]
+REQUIRED_TAGS = ["cluster-commit-during-inflight-push", "cluster-transition", "cluster-transition-refused", "cluster-retry-scheduled", "cluster-standby-role-ignores-commit", "cluster-standby-skips-roots", "cluster-acked-commit",
+                 "reg-recovers-after-first-push-failed", "commit-push-failed", "pull-failed", "commit-main", "commit-branch", "pull", "pull-after-commit", "new-branch-replicated",
+                 "branch-deleted-on-source", "deleted-branch-name-is-a-tag", "pull-after-branch-delete", "tag-named-like-live-branch"]
 HARNESS_TIMEOUT = 1500
 
 
@@ -40,10 +46,17 @@ def gen_one(rng, n):
     broken = False
     for _ in range(n):
         r = rng.random()
-        if r < 0.5:
+        if r < 0.42:
             steps.append({"op": "commit", "branch": rng.choice([0, 0, 1, 2])})
-        elif r < 0.8:
+        elif r < 0.68:
             steps.append({"op": "pull"})
+        elif r < 0.76:
+            steps.append({"op": "tag", "branch": rng.choice([1, 2, 15])})     # tag named b1 / v2 (= a branch name; b1 < main < v2) or b15 (sorts between b1 and main)
+        elif r < 0.86:
+            if broken:
+                steps.append({"op": "pull"})
+            else:
+                steps.append({"op": "delbranch", "branch": rng.choice([1, 2])})   # deleted on the primary, push-on-write deletes it on the remote
         elif not broken:
             steps.append({"op": "break"})       # the remote becomes unreachable: pushes and pulls fail
             broken = True
@@ -62,11 +75,25 @@ def gen_cases(rng, tier):
              {"steps": [{"op": "pull"}, {"op": "commit", "branch": 2}, {"op": "commit", "branch": 2}, {"op": "pull"}, {"op": "pull"}]},
              {"steps": [{"op": "commit", "branch": 0}, {"op": "pull"}, {"op": "break"}, {"op": "commit", "branch": 0}, {"op": "commit", "branch": 1}, {"op": "pull"},
                         {"op": "fix"}, {"op": "pull"}, {"op": "commit", "branch": 0}, {"op": "pull"}]},
-             {"steps": [{"op": "break"}, {"op": "commit", "branch": 1}, {"op": "fix"}, {"op": "commit", "branch": 1}, {"op": "pull"}]}]
+             {"steps": [{"op": "break"}, {"op": "commit", "branch": 1}, {"op": "fix"}, {"op": "commit", "branch": 1}, {"op": "pull"}]},
+             # a branch whose name is also a tag name is deleted on the source: the replica must drop the branch (and keep it dropped), then it is recreated
+             {"steps": [{"op": "commit", "branch": 2}, {"op": "tag", "branch": 2}, {"op": "pull"}, {"op": "delbranch", "branch": 2}, {"op": "pull"}, {"op": "pull"},
+                        {"op": "commit", "branch": 2}, {"op": "pull"}]},
+             {"steps": [{"op": "commit", "branch": 1}, {"op": "tag", "branch": 1}, {"op": "tag", "branch": 2}, {"op": "commit", "branch": 2}, {"op": "pull"}, {"op": "delbranch", "branch": 1},
+                        {"op": "pull"}, {"op": "delbranch", "branch": 2}, {"op": "pull"}]},
+             # commits on a live branch whose name is also a tag name (the harness goes through the revision database: dolt_checkout('<name>') picks the tag), also during an outage
+             {"steps": [{"op": "commit", "branch": 0}, {"op": "tag", "branch": 2}, {"op": "commit", "branch": 2}, {"op": "tag", "branch": 1}, {"op": "break"}, {"op": "commit", "branch": 1},
+                        {"op": "commit", "branch": 2}, {"op": "fix"}, {"op": "pull"}, {"op": "commit", "branch": 2}, {"op": "pull"}]},
+             # a tag name (b15) sorting between the branch names b1 and main / v2; both branches deleted one after the other
+             {"steps": [{"op": "commit", "branch": 1}, {"op": "commit", "branch": 2}, {"op": "tag", "branch": 15}, {"op": "tag", "branch": 2}, {"op": "pull"},
+                        {"op": "delbranch", "branch": 1}, {"op": "pull"}, {"op": "delbranch", "branch": 2}, {"op": "commit", "branch": 0}, {"op": "pull"}]}]
     n, nc = (4, 4) if tier == "quick" else (150, 150)
     cfixed = [{"mode": "cluster", "steps": [{"op": "down"}, {"op": "start"}, {"op": "commit"}, {"op": "commit"}, {"op": "transition"}, {"op": "up"},
                                             {"op": "commit"}, {"op": "commit"}, {"op": "transition"}, {"op": "commit"}]},
-              {"mode": "cluster", "steps": [{"op": "start"}, {"op": "commit"}, {"op": "commit"}, {"op": "commit"}, {"op": "transition"}, {"op": "commit"}, {"op": "commit"}]}]
+              {"mode": "cluster", "steps": [{"op": "start"}, {"op": "commit"}, {"op": "commit"}, {"op": "commit"}, {"op": "transition"}, {"op": "commit"}, {"op": "commit"}]},
+              # a write landing while the push of the previous one is in flight and nothing after it; then a graceful transition
+              {"mode": "cluster", "steps": [{"op": "start"}, {"op": "commit"}, {"op": "commit2"}, {"op": "await"}, {"op": "transition"}, {"op": "commit"}]},
+              {"mode": "cluster", "steps": [{"op": "down"}, {"op": "start"}, {"op": "commit"}, {"op": "up"}, {"op": "commit2"}, {"op": "commit"}, {"op": "commit2"}, {"op": "transition"}]}]
     return fixed + cfixed + [gen_one(rng, rng.randint(4, 9)) for _ in range(n)] + [gen_cluster(rng) for _ in range(nc)]
 
 
@@ -88,12 +115,24 @@ def _groups(case):
             dirty = down
         elif op == "commit":
             if swapped:
-                out.append(["(CStandbyWrite %d)" % (i + 1)])
+                out.append(["(CStandbyWrite %d)" % (2 * (i + 1))])
             elif down:
-                out.append(["(CCommit %d)" % (i + 1), "CReplicateFail"])
+                out.append(["(CCommit %d)" % (2 * (i + 1)), "CReplicateFail"])
                 dirty = True
             else:
-                out.append(["(CCommit %d)" % (i + 1), "CReplicateOk", "CAck"])
+                out.append(["(CCommit %d)" % (2 * (i + 1)), "CReplicateOk", "CAck"])
+                dirty = False
+        elif op == "commit2":
+            # the second write lands while the push of the first is in flight. The model's push is atomic: the in-flight
+            # attempt is linearised where it captured its root (before the second write), then the hook pushes again
+            a, b = 2 * (i + 1), 2 * (i + 1) + 1
+            if swapped:
+                out.append(["(CStandbyWrite %d)" % a, "(CStandbyWrite %d)" % b])
+            elif down:
+                out.append(["(CCommit %d)" % a, "(CCommit %d)" % b, "CReplicateFail"])
+                dirty = True
+            else:
+                out.append(["(CCommit %d)" % a, "CReplicateOk", "(CCommit %d)" % b, "CReplicateOk", "CAck"])
                 dirty = False
         elif op == "await":
             out.append(["CReplicateOk"])
@@ -117,7 +156,7 @@ def gen_cluster(rng):
             steps.append({"op": "transition"})      # refused: not caught up
         steps.append({"op": "up"})
     for _ in range(rng.randint(1, 4)):
-        steps.append({"op": "commit"})
+        steps.append({"op": "commit2" if rng.random() < 0.3 else "commit"})
     steps.append({"op": "transition"})
     for _ in range(rng.randint(1, 2)):
         steps.append({"op": "commit"})              # the hook is in the standby role now
@@ -136,6 +175,10 @@ def _steps(case):
             out.append("RPullFail")
         elif s["op"] == "commit":
             out.append("(%s %d %d)" % ("RCommitPushFail" if broken else "RCommit", s["branch"], i + 1))
+        elif s["op"] == "tag":
+            out.append("(RTag %d)" % s["branch"])
+        elif s["op"] == "delbranch":
+            out.append("RPullFail" if broken else "(RDelete %d)" % s["branch"])     # the generator deletes only while the remote is reachable
         else:
             out.append("RPullFail" if broken else "RPull")
     return out
@@ -179,8 +222,10 @@ def classify(case, out):
                 t.add("cluster-transition")
             if so["swapped"] and s["op"] == "commit":
                 t.add("cluster-standby-role-ignores-commit")
-            if s["op"] == "up" and prev is not None and so["standby"] > prev + 1:
+            if s["op"] == "up" and prev is not None and so["standby"] > prev + 2:
                 t.add("cluster-standby-skips-roots")
+            if so.get("raced"):
+                t.add("cluster-commit-during-inflight-push")
             if s["op"] == "commit" and not so["dirty"] and not so["swapped"]:
                 t.add("cluster-acked-commit")
             prev = so["standby"]
@@ -188,6 +233,7 @@ def classify(case, out):
     t = set()
     seen_commit = False
     broken = False
+    live, tags, deleted = set(), set(), False
     for s, so in zip(case["steps"], o["steps"]):
         if so.get("err"):
             t.add("step-error")
@@ -196,7 +242,21 @@ def classify(case, out):
         if s["op"] in ("break", "fix"):
             broken = s["op"] == "break"
             continue
+        if s["op"] == "tag":
+            if s["branch"] in live:
+                t.add("tag-named-like-live-branch")
+            tags.add(s["branch"])
+            continue
+        if s["op"] == "delbranch":
+            if s["branch"] in live:
+                live.discard(s["branch"])
+                deleted = True
+                t.add("branch-deleted-on-source")
+                if s["branch"] in tags:
+                    t.add("deleted-branch-name-is-a-tag")
+            continue
         if s["op"] == "commit":
+            live.add(s["branch"])
             t.add("commit-main" if s["branch"] == 0 else "commit-branch")
             if broken:
                 t.add("commit-push-failed")
@@ -207,6 +267,8 @@ def classify(case, out):
             if broken:
                 t.add("pull-failed")
             t.add("pull")
+            if deleted and not broken:
+                t.add("pull-after-branch-delete")
             if seen_commit:
                 t.add("pull-after-commit")
             if any(b != 0 for b, _ in (so.get("replica") or [])):
